@@ -30,6 +30,92 @@ FIELD_TABLE = [
 ]
 
 
+# what the problem writer prints for the ELEMENTS it walks over, whatever printer (property, helper, inline text) it uses for them:
+# (writer, marker of the collection in the provenance, depth of 'elem' steps, class, fields the element's text must depend on)
+ELEMENT_TABLE = [
+    ("ProblemExporter.write_initial_state", "fluents", 1, "PDDLFunction", {"name", "signature", "repeating_variables", "stored_value"}),
+    ("ProblemExporter.extract_state_predicates", "state", 1, "GroundedPredicate", {"name", "object_mapping", "is_positive"}),
+    ("ProblemExporter.write_objects", "objects", 1, "PDDLObject", {"name", "type"}),
+]
+
+
+def rule_elements(repo: Repo, rid: str = "C09.elements") -> RuleResult:
+    from .. import fields as F
+    from ..core import AnalysisError
+    r = RuleResult(rid, "the line written for each object / fact / fluent depends on every field of it that the reader needs",
+                   "objects with their types, ground atoms and fluent values (with repeated arguments) are preserved by the round trip")
+    for spec, marker, depth, cls, required in ELEMENT_TABLE:
+        f = L.fn(repo, spec)
+        p = L.prov(repo, f)
+        r.site(f"{f.qn} [{cls}]")
+        names = set()
+        for n in ast.walk(f.node):
+            if isinstance(n, ast.Name) and isinstance(n.ctx, ast.Load) and n.id not in names:
+                try:
+                    tr = p.trace(n)
+                except KeyError:
+                    continue
+                for x in tr:
+                    tail = [s_ for s_ in x if s_ == "elem"]
+                    if x[-1] == "elem" and len(tail) == depth and any(marker in s_ for s_ in x[:-depth]) and not any(s_.startswith(("arg", "in:", "kw:")) for s_ in x):
+                        names.add(n.id)
+        if not names:
+            raise AnalysisError(f"{spec}: the elements of the {marker} collection are not walked over by a name the analysis can follow")
+        got = set()
+        for nm in sorted(names):
+            got |= F.slice_fields(repo, f, nm, cls, control=False) | (F.slice_fields(repo, f, nm, cls) & c08.CONTROL_OK)
+        missing = sorted(required - got)
+        if missing:
+            r.fail(Finding(rid, f, f"element-field-not-printed:{cls}:{'/'.join(missing)}",
+                           f"the text that {spec} writes for a {cls} does not depend on {missing}"), {"fields_in_text": sorted(got & required)})
+        else:
+            r.ok({"writer": f.qn, "element": cls, "fields_in_text": sorted(got & required)})
+    r.require_sites(len(ELEMENT_TABLE))
+    return r
+
+
+def rule_objecttext(repo: Repo, rid: str = "C09.objecttext") -> RuleResult:
+    from .. import strshape as S
+    from ..core import AnalysisError
+    r = RuleResult(rid, "an object is written as '<name> - <type>' on every alternative",
+                   "typed lists are grouped: an object without '- type' takes the type of the next typed object")
+    f = L.fn(repo, "PDDLObject.__str__")
+    p = L.prov(repo, f)
+    ev = S.Evaluator(repo, f)
+    r.site(f.qn)
+
+    def namer(n):
+        try:
+            tr = p.trace(n)
+        except KeyError:
+            return "?"
+        if any(x[:2] == ("self", "attr:type") for x in tr):
+            return "type"
+        if any(x[:2] == ("self", "attr:name") for x in tr):
+            return "name"
+        return "?"
+
+    texts = []
+    for rt in [x for x in L.func_returns(f) if x.value is not None]:
+        try:
+            sh = ev.string(rt.value)
+        except Exception as ex:
+            raise AnalysisError(f"PDDLObject.__str__: the returned text is not interpreted ({ex})")
+        if S.unknowns(sh):
+            raise AnalysisError(f"PDDLObject.__str__: the returned text is not interpreted ({S.unknowns(sh)[:2]})")
+        for b in S.branches(sh):
+            texts.append(S.render(b, namer))
+    bad = [t for t in texts if "".join(t.split()) != "{name}-{type}"]
+    if not texts:
+        raise AnalysisError("PDDLObject.__str__: no returned text found")
+    if bad:
+        r.fail(Finding(rid, f, "untyped-alternative", f"an object can be written as {bad[0]!r}: without its own '- type' it is read back with the type of the next typed object"),
+               {"alternatives": texts})
+    else:
+        r.ok({"alternatives": texts})
+    return r
+
+
 def rule_keywords(repo: Repo) -> RuleResult:
     r = RuleResult("C09.keywords", "section keywords written by the problem writer are heads of parse_problem", "the text is read back by the library's own parser")
     heads = c08.parser_heads(repo, ["ProblemParser.parse_problem", "ProblemParser.parse_goal_state", "ProblemParser.parse_state_component"])
@@ -123,4 +209,4 @@ def rules(repo: Repo, tier: str) -> List[RuleResult]:
             c08.rule_typedparams(repo, "C09.typedobjects", ["ProblemExporter.write_objects"]) if False else c08.rule_balance(repo, "C09.balance2", ["PDDLObject.__str__"]),
             c01.rule_dupkeys(repo, "C09.dupkeys", ["ProblemParser.parse_grounded_numeric_fluent"]),
             # parsing one problem must not leak into the text of another: no write into shared module-level state
-            c07.rule_global(repo, "C09.global")]
+            c07.rule_global(repo, "C09.global"), rule_elements(repo), rule_objecttext(repo)]
